@@ -389,3 +389,71 @@ Proof.
     + apply wf_swamp_intro; [rewrite Hinfl; reflexivity|]. apply aall_aput; [exact Hall|].
       unfold wf_rec; cbn. rewrite B1, A3. reflexivity.
 Qed.
+
+Lemma set_items_sim create over : forall its x,
+  wf_swamp x = true ->
+  disc_set_items create over (abs_swamp x) its = 0 ->
+  let '(x', os) := set_items cfg_now create over x its in
+  s_set_items create over (abs_swamp x) its = (abs_swamp x', os) /\ wf_swamp x' = true.
+Proof.
+  induction its as [|it t IH]; intros x Hwf D; cbn [set_items s_set_items disc_set_items] in *;
+    [split; [reflexivity|exact Hwf]|].
+  destruct (disc_set_item create over (abs_swamp x) it =? 0) eqn:E1; cbn [negb] in D;
+    [apply Z.eqb_eq in E1 | apply Z.eqb_neq in E1; contradiction].
+  destruct (disc_set_meta create over (abs_swamp x) it =? 0) eqn:E2; cbn [negb] in D;
+    [apply Z.eqb_eq in E2 | apply Z.eqb_neq in E2; contradiction].
+  pose proof (set_item_sim create over x it Hwf E1 E2) as H.
+  destruct (set_item cfg_now create over x it) as [x1 o]. destruct H as [H1 H2].
+  rewrite H1 in *. cbn [fst] in D.
+  pose proof (IH x1 H2 D) as H. destruct (set_items cfg_now create over x1 t) as [x2 os].
+  destruct H as [H3 H4]. rewrite H3. split; [reflexivity|exact H4].
+Qed.
+
+(* ---- uint32 sets ---- *)
+Lemma slice_or_absent_cases x k :
+  wf_swamp x = true -> is_slice_or_absent (abs_swamp x) k = true ->
+  aget k (recs x) = None \/
+  exists l m, aget k (recs x) = Some {| r_c := Some {| c_void := false; c_sc := None; c_sl := Some l |}; r_meta := m; r_dirty := false |}.
+Proof.
+  intros Hwf H. destruct (wf_swamp_inv x Hwf) as [_ Hall].
+  unfold is_slice_or_absent in H. rewrite aget_abs_swamp in H.
+  destruct (aget k (recs x)) as [r|] eqn:E; [right|left; reflexivity].
+  pose proof (aall_aget _ _ _ _ Hall E) as Hr. unfold wf_rec in Hr. apply andb_true_iff in Hr as [Hd Hs].
+  destruct r as [[[cv cs cl]|] m d]; cbn in *; [|discriminate].
+  apply negb_true_iff in Hd; subst d.
+  destruct cv, cs as [[? ?]|], cl; try discriminate. eauto.
+Qed.
+
+Lemma push_sim x k vals :
+  wf_swamp x = true -> is_slice_or_absent (abs_swamp x) k = true ->
+  let x' := fst (save cfg_now x k (push_sl (obj_of x k) vals)) in
+  s_push (abs_swamp x) k vals = abs_swamp x' /\ wf_swamp x' = true.
+Proof.
+  intros Hwf H. destruct (wf_swamp_inv x Hwf) as [Hinfl Hall].
+  destruct (slice_or_absent_cases x k Hwf H) as [E|(l & m & E)];
+    destruct x as [rs inf]; cbn [infl recs] in *; subst inf;
+    unfold s_push, save, obj_of, ahas; rewrite aget_abs_swamp; cbn [recs infl]; rewrite E; cbn [option_map].
+  - cbn. split.
+    + symmetry; exact (aput_amap abs_rec k _ rs).
+    + apply (aall_aput wf_rec); [exact Hall | reflexivity].
+  - cbn. destruct (push_new l vals) eqn:Ep; cbn.
+    + split.
+      * symmetry; etransitivity; [exact (aput_amap abs_rec k _ rs)|].
+        unfold abs_rec, push_sl; cbn. rewrite Ep. reflexivity.
+      * apply (aall_aput wf_rec); [exact Hall |]. unfold push_sl; cbn. rewrite Ep. reflexivity.
+    + split.
+      * symmetry; etransitivity; [exact (aput_amap abs_rec k _ rs)|].
+        unfold abs_rec, push_sl; cbn. rewrite ?Ep. reflexivity.
+      * apply (aall_aput wf_rec); [exact Hall |]. unfold push_sl; cbn. rewrite ?Ep. reflexivity.
+Qed.
+
+Lemma push_pairs_sim : forall pairs x,
+  wf_swamp x = true -> disc_push (abs_swamp x) pairs = 0 ->
+  s_push_pairs (abs_swamp x) pairs = abs_swamp (push_pairs cfg_now x pairs) /\
+  wf_swamp (push_pairs cfg_now x pairs) = true.
+Proof.
+  induction pairs as [|[k vals] t IH]; intros x Hwf D; cbn [push_pairs s_push_pairs disc_push] in *;
+    [split; [reflexivity|exact Hwf]|].
+  destruct (is_slice_or_absent (abs_swamp x) k) eqn:E; [|discriminate].
+  destruct (push_sim x k vals Hwf E) as [H1 H2]. rewrite H1 in *. apply IH; assumption.
+Qed.
